@@ -612,10 +612,10 @@ def gen_case(rng, tier):
     elif r < .74:
         kind = "undisc-large-costs"           # costs ~ -1000 .. -100, state-dependent action sets, no terminal state
         m = gen_large_costs(rng)
-    elif r < .80:
+    elif r < .82:
         kind = "tiny-probabilities"           # probabilities 2^-k / 1-2^-k, k in {8,10,20,27,30,40,52}
         m = gen_tiny(rng)
-    elif r < .87:
+    elif r < .88:
         kind = "discounted-near-tie"          # values ~1e3, a clone of the optimal action worse by 1e-6..1e-5 relative
         # 40%: the slightly worse clone is the INITIAL policy (lowest action id): there the unchanged code keeps it
         # (relative tie band of the improvement test) and reports values up to 1e-4 relative below the optimum --
@@ -894,25 +894,44 @@ def gain_inside_band(Pa, av, absorbing, gstar):
                     return {"state_index": s, "action_index": a, "gain_gap": str(float(gap)), "optimal_gain": str(float(gstar[s]))}
     return None
 
-NEAR_TIE_RULE = ("signature class: discounted MDP with 1 - gamma > 2^-10 in which, at some non-absorbing state, an available action with a "
-                 "LOWER action index than every optimal action has an exact optimal action value Q* that is not optimal but within "
-                 "1e-8 + 1e-5*|Q*| of the optimum (inside np.isclose's default band)")
+NEAR_TIE_RULE = ("signature class: discounted MDP with 1 - gamma > 2^-10 that has a NON-optimal deterministic policy -- optimal except for "
+                 "a lower-index action at one non-absorbing state -- which is stable under the improvement test at its own exact "
+                 "values: max_a Q(s,a) - Q(s,policy(s)) <= 1e-8 + 1e-5*|max_a Q(s,a)| at every state (np.isclose's default band)")
 
 
 def inside_band_lower_index(Pa, Ra, av, absorbing, gam, Vs):
+    """a NON-optimal deterministic policy -- optimal except for a lower-index action b at one state -- that is stable
+    under the code's improvement test evaluated at its own exact values: max_a Q_b(s,a) - Q_b(s,b) <= 1e-8 + 1e-5*|max Q_b|"""
     if 1 - gam <= F(1, 2**10):
         return None
     n, nA = len(Pa), len(Pa[0])
+    opt = []
+    for s in range(n):
+        qs = {a: Ra[s][a] + gam * ex(Pa, Vs, s, a) for a in range(nA) if av[s][a]}
+        opt.append(min(a for a in qs if qs[a] == max(qs.values())))
     for s in range(n):
         if absorbing[s]:
             continue
         qs = {a: Ra[s][a] + gam * ex(Pa, Vs, s, a) for a in range(nA) if av[s][a]}
         best = max(qs.values())
-        first_opt = min(a for a in qs if qs[a] == best)
-        for a in qs:
-            if a < first_opt and 0 < best - qs[a] <= F(1, 10**8) + F(1, 10**5) * abs(best):
-                return {"state_index": s, "action_index": a, "optimal_action_index": first_opt,
-                        "q_gap": str(float(best - qs[a])), "q_optimal": str(float(best))}
+        for b in sorted(qs):
+            if b < opt[s] and 0 < best - qs[b] <= 4 * (F(1, 10**8) + F(1, 10**5) * abs(best)):
+                pol = list(opt); pol[s] = b
+                A = [[(F(1) if i == j else F(0)) - gam * Pa[i][pol[i]][j] for j in range(n)] for i in range(n)]
+                Vb = _c01.solve_linear(A, [Ra[i][pol[i]] for i in range(n)])
+                if Vb is None:
+                    continue
+                stable = True
+                for t in range(n):
+                    qb = {a: Ra[t][a] + gam * ex(Pa, Vb, t, a) for a in range(nA) if av[t][a]}
+                    mx = max(qb.values())
+                    if mx - qb[pol[t]] > F(1, 10**8) + F(1, 10**5) * abs(mx):
+                        stable = False
+                        break
+                if stable:
+                    return {"state_index": s, "action_index": b, "optimal_action_index": opt[s],
+                            "q_gap": str(float(best - qs[b])), "q_optimal": str(float(best)),
+                            "value_loss_of_that_policy": str(float(max(x - y for x, y in zip(Vs, Vb))))}
     return None
 
 NEAR_ONE_RULE = ("signature class: discounted MDP with 1 - gamma <= 2^-10 that has a CONTINUING part (some state of the state list "
